@@ -7,6 +7,7 @@ import (
 	"os"
 	"os/exec"
 	"path/filepath"
+	"regexp"
 	"strings"
 	"time"
 
@@ -118,6 +119,17 @@ func genC03(r *Rng) *C03Case {
 		}
 		cs.Trees = append(cs.Trees, t)
 	}
+	dumpT := -1
+	if lo > 0 {
+		// a flat template that walks both map bindings and prints every key and value
+		dumpT = len(cs.Trees)
+		var d []*TNode
+		for _, m := range []string{"m", "m2"} {
+			d = append(d, &TNode{K: "block", S: "for kv in " + m, C: []*TNode{{K: "obj", S: "kv[0]"}, {K: "text", S: "="}, {K: "obj", S: "kv[1]"}, {K: "text", S: ";"}}})
+		}
+		cs.Trees = append(cs.Trees, d)
+		nt++
+	}
 	for _, t := range cs.Trees {
 		cs.Sources = append(cs.Sources, Source(t))
 	}
@@ -141,8 +153,20 @@ func genC03(r *Rng) *C03Case {
 			// the CALLER changes a value inside one of its own maps (same object, same
 			// size) between two renders: later renders must see the new value
 			st = C03Step{Kind: "mutate", B: st.B, K: r.Intn(1000)}
+			if dumpT >= 0 {
+				cs.Steps = append(cs.Steps, C03Step{Kind: "render", T: dumpT, B: st.B, EP: r.Intn(3)})
+			}
 		}
 		cs.Steps = append(cs.Steps, st)
+		if st.Kind == "mutate" {
+			// ... and then renders again something it rendered with that environment before
+			for j := len(cs.Steps) - 2; j >= 0; j-- {
+				if p := cs.Steps[j]; p.B == st.B && (p.Kind == "render" || p.Kind == "parse") {
+					cs.Steps = append(cs.Steps, p)
+					break
+				}
+			}
+		}
 	}
 	return cs
 }
@@ -250,6 +274,10 @@ type c03Fail struct {
 
 // c03Mutate applies step st to the logical environment and to the live Go value:
 // one value of a plain map[string]any binding is replaced (no key added or removed).
+var lastMutated string
+var lastMutatedLen int
+var directLoop = regexp.MustCompile(`(for|tablerow) \w+ in (m|m2) (%|-|reversed|limit|offset|cols)`)
+
 func c03Mutate(cs *C03Case, envs []map[string]any, st C03Step, si int) bool {
 	for _, a := range cs.Aliases {
 		if a.Env == st.B || a.FromEnv == st.B {
@@ -270,6 +298,7 @@ func c03Mutate(cs *C03Case, envs []map[string]any, st C03Step, si int) bool {
 		nv := fmt.Sprintf("mutated-by-caller-%d", si)
 		v.A[i] = &LV{T: "str", S: nv}
 		live[v.K[i]] = nv
+		lastMutated, lastMutatedLen = name, len(v.A)
 		return true
 	}
 	return false
@@ -357,6 +386,12 @@ func c03Find(c *Ctx, cs0 *C03Case, out *CaseOut, wantSig string) []c03Fail {
 				snaps[st.B] = Snapshot(envs[st.B])
 				if c != nil {
 					c.count("fault:caller_mutates_binding", 1)
+					if lastMutatedLen >= 16 {
+						c.count("probe:mutated_map_of_16_or_more", 1)
+						if si+1 < len(cs.Steps) && directLoop.MatchString(srcs[cs.Steps[si+1].T]) {
+							c.count("probe:rerender_loops_directly_over_a_mutated_large_map", 1)
+						}
+					}
 				}
 			}
 			continue
